@@ -729,8 +729,9 @@ class Event:
 class Interp:
     """Abstract interpreter of one function (with bounded inlining of repository helpers)."""
 
-    def __init__(self, prog, inline=None, no_inline=(), max_depth=8, opaque_self_methods=(), inline_all_repo=False, copy_is_identity=True, commutative=(), resolve_new_objects=False):
+    def __init__(self, prog, inline=None, no_inline=(), max_depth=8, opaque_self_methods=(), inline_all_repo=False, copy_is_identity=True, commutative=(), resolve_new_objects=False, override=None):
         self.prog = prog
+        self.override = dict(override or {})  # qualname -> FunctionInfo read instead of the repository's (reference helpers of a specification)
         self.inline = set(inline or ())  # extra qualname suffixes to inline
         self.no_inline = set(no_inline)
         self.max_depth = max_depth
@@ -1083,6 +1084,22 @@ class Frame:
             elif not alias_ok:
                 st.env.pop(("@alias", target.id), None)
             return
+        if isinstance(target, (ast.Tuple, ast.List)) and sum(isinstance(t, ast.Starred) for t in target.elts) == 1:
+            # first, *rest = xs
+            k = [isinstance(t, ast.Starred) for t in target.elts].index(True)
+            after = len(target.elts) - k - 1
+            if isinstance(v, (AList, ATuple)) and not getattr(v, "doms", None) and len(v.items) >= len(target.elts) - 1:
+                n = len(v.items)
+                vals = list(v.items[:k]) + [AList(list(v.items[k:n - after]))] + list(v.items[n - after:])
+            else:
+                def slc(lo, hi):
+                    return Poly.atom(("sub", vkey(v), vkey(Poly.atom(("slice", vkey(lo), vkey(hi), vkey(None))))))
+                vals = [Poly.atom(("sub", vkey(v), Poly.const(i).key())) for i in range(k)]
+                vals.append(slc(Poly.const(k) if k else None, Poly.const(-after) if after else None))
+                vals += [Poly.atom(("sub", vkey(v), Poly.const(-j).key())) for j in range(after, 0, -1)]
+            for t, x in zip(target.elts, vals):
+                self.assign(t.value if isinstance(t, ast.Starred) else t, x, st)
+            return
         if isinstance(target, (ast.Tuple, ast.List)):
             items = self.unpack(v, len(target.elts))
             for t, x in zip(target.elts, items):
@@ -1090,22 +1107,7 @@ class Frame:
             return
         if isinstance(target, ast.Attribute):
             base = self.eval(target.value, st)
-            if isinstance(base, ARecord) and target.attr in base.names:
-                base.items[base.names.index(target.attr)] = v
-                return
-            ci = self.class_of(base, target.value, st)
-            if ci is not None:
-                setter = self.I.prog.prop(ci, target.attr, "setter")
-                if setter is not None and self.should_inline(setter):
-                    self.call_function(setter, [base, v], {}, st, target, self_cls=ci)
-                    return
-            slot = ("@attr", vkey(base), target.attr)
-            st.env[slot] = v
-            self.I.events.append(Event("store_attr", [base, v], {"attr": target.attr}, st.guards, target))
-            if ci is None and target.attr in self.I.setter_names():
-                # a property setter of some repository class: it may refresh other attributes of the
-                # object, so later reads of them are reads of the object *after* this store
-                st.env[("@ver", vkey(base))] = ("after", st.env.get(("@ver", vkey(base)), vkey(base)), target.attr, vkey(v))
+            self.store_attr(base, target.attr, v, target.value, target, st)
             return
         if isinstance(target, ast.Subscript):
             base = self.eval(target.value, st)
@@ -1132,6 +1134,25 @@ class Frame:
         if isinstance(target, ast.Starred):
             raise Unsupported("starred assignment")
         raise Unsupported("assignment target %s" % type(target).__name__)
+
+    def store_attr(self, base, attr, v, base_node, node, st):
+        """`base.attr = v` (also reached through setattr(base, "attr", v))."""
+        if isinstance(base, ARecord) and attr in base.names:
+            base.items[base.names.index(attr)] = v
+            return
+        ci = self.class_of(base, base_node, st)
+        if ci is not None:
+            setter = self.I.prog.prop(ci, attr, "setter")
+            if setter is not None and self.should_inline(setter):
+                self.call_function(setter, [base, v], {}, st, node, self_cls=ci)
+                return
+        slot = ("@attr", vkey(base), attr)
+        st.env[slot] = v
+        self.I.events.append(Event("store_attr", [base, v], {"attr": attr}, st.guards, node))
+        if ci is None and attr in self.I.setter_names():
+            # a property setter of some repository class: it may refresh other attributes of the
+            # object, so later reads of them are reads of the object *after* this store
+            st.env[("@ver", vkey(base))] = ("after", st.env.get(("@ver", vkey(base)), vkey(base)), attr, vkey(v))
 
     def unpack(self, v, n):
         if isinstance(v, (ATuple, AList)) and not getattr(v, "doms", None) and len(v.items) == n:
@@ -1248,22 +1269,24 @@ class Frame:
             if root in self.module.imports or root in ("np", "math"):
                 return Poly.atom(("g", full))
         base = self.eval(e.value, st)
-        if isinstance(base, ARecord) and e.attr in base.names:
-            return base.items[base.names.index(e.attr)]
-        slot = ("@attr", vkey(base), e.attr)
+        return self.attr_of(base, e.attr, e.value, e, st)
+
+    def attr_of(self, base, attr, base_node, node, st):
+        """Value of `base.attr` (also reached through getattr(base, "attr"))."""
+        if isinstance(base, ARecord) and attr in base.names:
+            return base.items[base.names.index(attr)]
+        slot = ("@attr", vkey(base), attr)
         if slot in st.env:
             return st.env[slot]
         if ("@ver", vkey(base)) in st.env:
-            return Poly.atom(("attr", st.env[("@ver", vkey(base))], e.attr))
+            return Poly.atom(("attr", st.env[("@ver", vkey(base))], attr))
         # property getter on self or on a class-typed symbol
-        ci = self.class_of(base, e.value, st)
+        ci = self.class_of(base, base_node, st)
         if ci is not None:
-            getter = self.I.prog.prop(ci, e.attr, "getter")
+            getter = self.I.prog.prop(ci, attr, "getter")
             if getter is not None and self.should_inline(getter):
-                return self.call_function(getter, [base], {}, st, e, self_cls=ci)
-        if isinstance(base, ATuple) or isinstance(base, AList) or isinstance(base, ADict):
-            return Poly.atom(("attr", vkey(base), e.attr))
-        return Poly.atom(("attr", vkey(base), e.attr))
+                return self.call_function(getter, [base], {}, st, node, self_cls=ci)
+        return Poly.atom(("attr", vkey(base), attr))
 
     def class_of(self, base, node, st):
         """Class of an abstract value when it is the `self`/`cls` symbol of the current method."""
@@ -1378,6 +1401,16 @@ class Frame:
             return self.eval(e.body, st)
         if g == FALSE:
             return self.eval(e.orelse, st)
+        if any(isinstance(n, ast.Call) for arm in (e.body, e.orelse) for n in ast.walk(arm)):
+            # an arm that calls something is evaluated only when it is selected: its effects (and the state changes of
+            # an inlined helper) happen under the test, exactly as in the statement form
+            s1, s2 = st.fork(g), st.fork(g_not(g))
+            v1 = self.eval(e.body, s1)
+            v2 = self.eval(e.orelse, s2)
+            m = merge_states([s1, s2], len(st.guards))
+            st.env.clear()
+            st.env.update(m.env)
+            return make_cond([(g, v1), (TRUE, v2)])
         return make_cond([(g, self.eval(e.body, st)), (TRUE, self.eval(e.orelse, st))])
 
     def e_Tuple(self, e, st):
@@ -1576,6 +1609,12 @@ class Frame:
             return self.call_method(recv, f, args, kwargs, st, e)
         if isinstance(f, ast.Name):
             fv = st.env[f.id]
+            # a local that holds a function reference, or one of several (`g = a if c else b; g(x)`): the call of the
+            # function it holds, under the condition that selects it
+            alts = _cond_alternatives(fv) if isinstance(fv, Poly) else None
+            refs = alts if alts is not None else ([(TRUE, fv)] if isinstance(fv, Poly) else [])
+            if refs and not kwargs and all(isinstance(r, Poly) and r.as_atom() is not None and r.as_atom()[0] == "g" for _, r in refs):
+                return make_cond([(g, self.apply_ref(r, list(args), st, e)) for g, r in refs])
             return self.opaque_call("local:" + show(fv) if not isinstance(fv, str) else fv, args, kwargs, st, e)
         raise Unsupported("call of %s" % ast.unparse(f))
 
@@ -1698,6 +1737,20 @@ class Frame:
             if dotted == "set":
                 return ASet(list(args[0].items), list(getattr(args[0], "doms", [])))
             return Poly.atom(("call", dotted, tuple(sorted({vkey(i) for i in args[0].items}, key=_k)), ()))
+        if dotted == "getattr" and len(args) == 2 and isinstance(args[1], str) and not kwargs and args[1].isidentifier():
+            return self.attr_of(args[0], args[1], node.args[0] if isinstance(node, ast.Call) and node.args else None, node, st)
+        if dotted == "setattr" and len(args) == 3 and isinstance(args[1], str) and not kwargs and args[1].isidentifier():
+            self.store_attr(args[0], args[1], args[2], node.args[0] if isinstance(node, ast.Call) and node.args else None, node, st)
+            return None
+        if name in ("functools.reduce", "reduce") and len(args) in (2, 3) and not kwargs and isinstance(args[1], (AList, ATuple)) and not getattr(args[1], "doms", None) and isinstance(args[0], Poly):
+            # a fold over a concrete sequence is the chain of calls it makes
+            items = list(args[1].items)
+            fa = args[0].as_atom()
+            if (len(args) == 3 or items) and fa is not None and fa[0] in ("g", "attr"):
+                acc = args[2] if len(args) == 3 else items.pop(0)
+                for x in items:
+                    acc = self.apply_ref(args[0], [acc, x], st, node)
+                return acc
         if name in ("itertools.islice", "islice") and 2 <= len(args) <= 4 and not kwargs:
             # islice(x, stop) / islice(x, start, stop[, step]) reads as the slice x[start:stop:step]
             parts = [None, args[1], None] if len(args) == 2 else ([args[1], args[2], args[3] if len(args) == 4 else None])
@@ -1758,8 +1811,12 @@ class Frame:
         a = fref.as_atom() if isinstance(fref, Poly) else None
         if a is not None and a[0] == "g":
             fi = self.I.prog.functions.get(a[1]) or self.I.prog._resolve_dotted_fn(a[1])
+            if fi is None and "." not in a[1]:
+                fi = self.I.prog.resolve_function(a[1], self.module)
             if fi is not None and self.should_inline(fi):
                 return self.call_function(fi, args, {}, st, node)
+            if fi is None and a[1] in ("str", "int", "float", "len", "list", "tuple", "set", "sorted", "sum", "max", "min", "abs"):
+                return self.call_named(a[1], a[1], list(args), {}, st, node)  # the builtin, with the semantics a direct call has
             nm = a[1].split(".")[-1]
             return self.opaque_call(ALIASES.get(a[1], ALIASES.get(nm, nm)), args, {}, st, node)
         if a is not None and a[0] == "attr":
@@ -1793,6 +1850,7 @@ class Frame:
 
     def call_function(self, fi, args, kwargs, st, node, self_cls=None):
         sub = self.I
+        fi = sub.override.get(fi.qualname, fi)
         saved = Event.prefix
         Event.prefix = tuple(saved) + tuple(st.guards)
         try:
